@@ -83,6 +83,11 @@ func (r *runner) classFixtures() {
 			continue
 		}
 		stats["sierra: hash equals network-declared"]++
+		if mh := modelClassHash(r.or, cls.(*core.SierraClass)); !mh.Equal(&declared) {
+			r.c.Violation("class-hash:fixture", fmt.Sprintf("%s: network-declared class hash %s, model %s", id, &declared, &mh), rc, true)
+		} else {
+			stats["sierra: MODEL hash equals network-declared"]++
+		}
 		if err := core.VerifyClassHashes(map[felt.Felt]core.ClassDefinition{declared: cls}); err != nil {
 			r.c.Violation("fixture:class-hash:juno-rejects", fmt.Sprintf("%s: %v", id, err), rc, true)
 			continue
